@@ -170,6 +170,13 @@ func seqProfile(prop string, cas int, tier string) Profile {
 			p.NearFull = true
 			p.Sweep = false
 		}
+		if cas%16 == 11 {
+			// blocks beyond 32768 (second bitmap block) recycled across restarts
+			p.DiskBlocks = 40000
+			p.HighBlocks = true
+			p.Sweep = false
+			p.RestartEvery = 20
+		}
 	}
 	return p
 }
